@@ -314,7 +314,7 @@ def known_findings(pid):
 # every non-test Go file of these package directories is instrumented (so that code moved to a
 # new file of the package is still covered); sync-op listings are keyed by package directory
 INSTRUMENT_DIRS = ["internal/progress", "internal/workers", "internal/raterun", "internal/run",
-                   "internal/trigger/api", "internal/trigger/file"]
+                   "internal/trigger/api", "internal/trigger/file", "internal/trigger/users", "pkg/f1/testing", "pkg/f1"]
 
 
 def instrument_files():
@@ -378,9 +378,11 @@ MODEL_CALLS = {"cancel", "workerCtxCancel", "schedulesCtxCancel", "runFunction",
                "NextIteration", "MaxIterationsReached", "IterationsExhausted", "RecordDroppedIteration", "recordDropped", "halt",
                "stop", "sendJobsForExecution", "waitForNewJobs", "maxIterationsReached", "WaitForCompletion", "Reset", "Run",
                "Trigger", "SnapshotProgress", "GetTotals", "Stop", "Start", "Restart", "startFirst", "startNext", "NewTicker",
-               "NewTimer", "CollectLifetime", "Update", "drain", "Snapshot", "Record"}
+               "NewTimer", "CollectLifetime", "Update", "drain", "Snapshot", "Record",
+               "Sleep", "After", "AfterFunc", "Until", "WithTimeout", "WithDeadline", "WithCancel", "panic", "recover", "Goexit"}
 NOT_RESOLVED = LOCK_LIKE | {"Add", "Load", "Store", "Swap", "CompareAndSwap", "Done", "Err", "Stop", "Start", "Reset", "Run",
-                            "close", "cancel", "NewTicker", "NewTimer", "Record", "Update", "Snapshot"}
+                            "close", "cancel", "NewTicker", "NewTimer", "Record", "Update", "Snapshot",
+                            "Sleep", "After", "AfterFunc", "Until", "WithTimeout", "WithDeadline", "WithCancel", "panic", "recover", "Goexit"}
 
 
 def _canon_expr(e):
@@ -510,9 +512,20 @@ def syncops_drift(listing, functions):
     fe = flatten_syncops({k: v for k, v in expected.items() if k != "__declared__"}, expected.get("__declared__", {}))
     fc = flatten_syncops(current, decl_now)
     current["__declared__"] = decl_now
+    wanted = []
     for key in functions:
-        if key not in expected or key == "__declared__" or key.endswith((".go", ".func")):
-            continue   # goroutine / closure bodies are compared through the function that starts them
+        if key.endswith("::*"):   # every function of the package that has a listing (now or in the corpus)
+            pre = key[:-1]
+            wanted.extend(sorted(set(k for k in list(expected) + list(fc) if k.startswith(pre))))
+        else:
+            wanted.append(key)
+    for key in wanted:
+        if key == "__declared__" or key.endswith(".go"):
+            continue   # goroutine bodies are compared through the function that starts them
+        if key not in expected:
+            if key in fc and fc[key]:
+                diffs.append((key, None, fc[key]))   # a function of a covered package that performs such operations appeared
+            continue
         if fc.get(key) != fe[key]:
             diffs.append((key, fe[key], fc.get(key)))
     return diffs, current
